@@ -56,6 +56,21 @@ def harvest():
     return out
 
 
+def harvest_programs():
+    """string constants of the repository's parser tests that look like whole sources (several lines, an END somewhere)"""
+    base = os.path.join(REPO, "src", "fparser", "two", "tests")
+    out = set()
+    for path in sorted(glob.glob(os.path.join(base, "**", "*.py"), recursive=True)):
+        try:
+            tree = ast.parse(open(path).read())
+        except (OSError, SyntaxError):
+            continue
+        for n in ast.walk(tree):
+            if isinstance(n, ast.Constant) and isinstance(n.value, str) and "\n" in n.value and len(n.value) < 3000 and "end" in n.value.lower():
+                out.add(n.value)
+    return sorted(out)
+
+
 def all_nodes(node, acc=None):
     from fparser.two.utils import Base
     acc = [] if acc is None else acc
@@ -121,6 +136,71 @@ def main(argv):
                                   assumptions=["bounded: the snippets of the repository's own rule tests (harvested from the tree under check)"],
                                   seconds=round(time.time() - t0, 2))))
             return 0
+    # whole programs harvested from the tests: the same checks at program level
+    import logging
+    import pickle
+    import re as _re
+    from fparser.common.readfortran import FortranStringReader
+    logging.disable(logging.CRITICAL)
+    unname = lambda r: _re.sub(r"'block:\d+'", "'block:N'", r)      # noqa: E731
+    done = set()
+    n_prog = 0
+    for std in ("f2003", "f2008"):
+        for k, src in enumerate(harvest_programs()):
+            if src in done:
+                continue
+            try:
+                rd = FortranStringReader(src)
+                free_form = rd.format.is_free
+                tree = ParserFactory().create(std=std)(rd)
+            except BaseException:  # noqa
+                continue
+            done.add(src)
+            n_prog += 1
+            cases += 1
+            accepted += 1
+            wit = dict(program="harvested:%d" % k, std=std, source=src)
+            if _re.search(r"\dp\s*[defg]", src, _re.I):
+                wit["kind"] = "p_edit_descriptor_without_comma"
+            printed = str(tree)
+            if "C01" in only:
+                try:
+                    t2 = ParserFactory().create(std=std)(FortranStringReader(printed + "\n"))
+                    if unname(repr(t2)) != unname(repr(tree)) or str(t2) != printed:
+                        fail("program#printed_text_reparses_to_the_same_tree", wit, dict(printed=printed[:400]))
+                except BaseException as e:  # noqa
+                    fail("program#printed_text_reparses_to_the_same_tree", wit, dict(printed=printed[:400], error="%s: %s" % (type(e).__name__, str(e)[:100])))
+            if "C02" in only and free_form and "kind" not in wit:      # the independent lexer reads free form; FORMAT commas are canonical
+                from checks.bounded_tokens import strip_comments
+                a, b = lexical_content(strip_comments(src)), lexical_content(strip_comments(printed))
+                same = len(a) == len(b) and all(x == y or (x[0] == y[0] == "name" and y[1] == x[1].upper()) for x, y in zip(a, b))
+                if not same:
+                    kk = next((i for i, (x, y) in enumerate(zip(a, b)) if not (x == y or (x[0] == y[0] == "name" and y[1] == x[1].upper()))), min(len(a), len(b)))
+                    fail("program#printed_text_has_the_source_tokens", wit, dict(printed=printed[:300], first_difference=dict(source=a[kk:kk + 3], printed=b[kk:kk + 3])))
+            if "C10" in only:
+                nodes = all_nodes(tree)
+                ids = [id(n) for n in nodes]
+                if len(ids) != len(set(ids)):
+                    fail("program#no_node_twice", wit, dict(nodes=len(ids), distinct=len(set(ids))))
+                for n in nodes:
+                    for c in (x for x in (getattr(n, "children", None) or []) if isinstance(x, Base)):
+                        if c.parent is not n:
+                            fail("program#child_parent_is_holder", wit, dict(child=repr(c)[:80], parent=repr(c.parent)[:80]))
+                    if n.get_root() is not tree:
+                        fail("program#root_is_the_tree", wit, dict(node=repr(n)[:80]))
+                w = [id(x) for x in walk(tree) if isinstance(x, Base)]
+                if sorted(w) != sorted(ids):
+                    fail("program#walk_visits_every_node_once", wit, dict(walk=len(w), nodes=len(ids)))
+            if "C18" in only:
+                for how, fn in (("deepcopy", copy.deepcopy), ("pickle", lambda t: pickle.loads(pickle.dumps(t)))):
+                    try:
+                        c = fn(tree)
+                        if str(c) != printed or unname(repr(c)) != unname(repr(tree)):
+                            fail("program#%s_equal" % how, wit, dict(copy=str(c)[:200]))
+                        if {id(n) for n in all_nodes(c)} & {id(n) for n in all_nodes(tree)}:
+                            fail("program#%s_shares_no_node" % how, wit, "shared node")
+                    except BaseException as e:  # noqa
+                        fail("program#%s_succeeds" % how, wit, "%s: %s" % (type(e).__name__, str(e)[:100]))
     for std in ("f2003", "f2008"):
         ParserFactory().create(std=std)
         import fparser.two.Fortran2003 as F3
@@ -191,7 +271,7 @@ def main(argv):
             if len(samples) < 3 and accepted % 211 == 0:
                 samples.append(dict(cls=name, text=text))
     print(json.dumps(dict(name="bounded_harvest", cases=cases, distinct=accepted, exhaustive=False, bounded=True, failures=failures, samples=samples,
-                          rule="%d (class, text) pairs harvested from the repository's rule tests, %d accepted, %d rule classes" % (len(corpus), accepted, len(classes)),
+                          rule="%d (class, text) pairs harvested from the repository's rule tests (%d rule classes) and %d whole programs harvested from its parser tests; %d cases accepted" % (len(corpus), len(classes), n_prog, accepted),
                           assumptions=["bounded: the snippets of the repository's own rule tests (harvested from the tree under check)"],
                           seconds=round(time.time() - t0, 2))))
     return 0
